@@ -24,17 +24,17 @@ func init() {
 		g.Check = check(needChanged)
 		facet.Register(g)
 	}
-	reg("mut/json-value", ruleMut, 12000, 40000, 4, facet.F[Input]{Gen: genMutValue("json", DJSONValue)}, true)
-	reg("mut/json-type", ruleMut, 12000, 40000, 4, facet.F[Input]{Gen: genMutType}, true)
-	reg("mut/json-implied", ruleMut, 12000, 40000, 4, facet.F[Input]{Gen: genMutImplied("json", DJSONImplied)}, true)
-	reg("mut/msgpack-value", ruleMut, 12000, 40000, 4, facet.F[Input]{Gen: genMutValue("msgpack", DMsgpackValue)}, true)
-	reg("mut/msgpack-implied", ruleMut, 12000, 40000, 4, facet.F[Input]{Gen: genMutImplied("msgpack", DMsgpackImplied)}, true)
+	reg("mut/json-value", ruleMut, 20000, 40000, 4, facet.F[Input]{Gen: genMutValue("json", DJSONValue)}, true)
+	reg("mut/json-type", ruleMut, 20000, 40000, 4, facet.F[Input]{Gen: genMutType}, true)
+	reg("mut/json-implied", ruleMut, 20000, 40000, 4, facet.F[Input]{Gen: genMutImplied("json", DJSONImplied)}, true)
+	reg("mut/msgpack-value", ruleMut, 20000, 40000, 4, facet.F[Input]{Gen: genMutValue("msgpack", DMsgpackValue)}, true)
+	reg("mut/msgpack-implied", ruleMut, 20000, 40000, 4, facet.F[Input]{Gen: genMutImplied("msgpack", DMsgpackImplied)}, true)
 
-	reg("raw/json-value", ruleRaw, 6000, 30000, 2, facet.F[Input]{Gen: genRaw("json", []string{DJSONValue})}, false)
-	reg("raw/json-type", ruleRaw, 6000, 30000, 2, facet.F[Input]{Gen: genRaw("json", []string{DJSONType, DJSONTypeDirect})}, false)
-	reg("raw/json-implied", ruleRaw, 6000, 30000, 2, facet.F[Input]{Gen: genRaw("json", []string{DJSONImplied})}, false)
-	reg("raw/msgpack-value", ruleRaw, 6000, 30000, 2, facet.F[Input]{Gen: genRaw("msgpack", []string{DMsgpackValue})}, false)
-	reg("raw/msgpack-implied", ruleRaw, 6000, 30000, 2, facet.F[Input]{Gen: genRaw("msgpack", []string{DMsgpackImplied})}, false)
+	reg("raw/json-value", ruleRaw, 10000, 30000, 2, facet.F[Input]{Gen: genRaw("json", []string{DJSONValue})}, false)
+	reg("raw/json-type", ruleRaw, 10000, 30000, 2, facet.F[Input]{Gen: genRaw("json", []string{DJSONType, DJSONTypeDirect})}, false)
+	reg("raw/json-implied", ruleRaw, 10000, 30000, 2, facet.F[Input]{Gen: genRaw("json", []string{DJSONImplied})}, false)
+	reg("raw/msgpack-value", ruleRaw, 10000, 30000, 2, facet.F[Input]{Gen: genRaw("msgpack", []string{DMsgpackValue})}, false)
+	reg("raw/msgpack-implied", ruleRaw, 10000, 30000, 2, facet.F[Input]{Gen: genRaw("msgpack", []string{DMsgpackImplied})}, false)
 
 	reg("mem/json-value", ruleMem, 600, 900, 2, facet.F[Input]{Gen: genMem(DJSONValue, 16)}, false)
 	reg("mem/json-type", ruleMem, 400, 600, 2, facet.F[Input]{Gen: genMem(DJSONType, 64)}, false)
